@@ -6,6 +6,9 @@ import Dtn7.Model.Tcpcl
 import Dtn7.Lemmas.Tcpcl
 import Dtn7.Lemmas.TcpclDemux
 import Dtn7.Gen.C11
+import Dtn7.Model.Bundle
+import Dtn7.Model.BundleSpec
+import Dtn7.Lemmas.BundleTop
 
 namespace Dtn7.Props.C11
 open Dtn7.Tcpcl
@@ -55,6 +58,23 @@ exactly the sent bytes to the bundle parser, once. -/
 theorem receiver_exact (data : Bytes) (m : Nat) (segs : List Seg) (h : SegmentsOk data m segs) :
     (receive {} segs).2 = some data :=
   Lemmas.receive_of_ok data m segs h
+
+/-- **transfer_delivers_bundle** — sender, receiver and the real bundle codec (C01) composed: for EVERY bundle the
+wire can carry (`Encodable`) that is valid at the receiver's clock, and every peer-declared segment size `m ≥ 1`
+(the sender additionally caps segments at `cap > 0`), feeding the sender's train for the bundle's serialisation
+into a fresh receiver hands exactly those bytes to the bundle parser, and the parser (`Bundle.UnmarshalCbor`:
+decode + `CheckValid`) returns the very bundle that was sent, with nothing left over. "The receiver hands up
+exactly one bundle identical to the one sent." -/
+theorem transfer_delivers_bundle (cfg : Dtn7.Bundle.Cfg) (hs : cfg.strict = true) (now : Nat)
+    (b : Dtn7.Bundle.Bundle) (he : Dtn7.Bundle.Encodable cfg b)
+    (hv : Dtn7.Bundle.checkValid cfg.strict now b = true) (cap m : Nat) (hm : 0 < m) (hc : 0 < cap) :
+    Dtn7.Bundle.serialize b = .ok (Dtn7.Bundle.serializeRaw b) ∧
+    (receive {} (segmentsCapped true cap m (Dtn7.Bundle.serializeRaw b))).2 = some (Dtn7.Bundle.serializeRaw b) ∧
+    Dtn7.Bundle.parse cfg now (Dtn7.Bundle.serializeRaw b) = .ok (b, []) := by
+  have hne : Dtn7.Bundle.serializeRaw b ≠ [] := by simp [Dtn7.Bundle.serializeRaw]
+  obtain ⟨h1, h2⟩ := Dtn7.Bundle.Lemmas.parse_serialize cfg hs now b he hv []
+  rw [List.append_nil] at h2
+  exact ⟨h1, receiver_exact _ m _ (segments_ok_capped _ cap m hm hc hne), h2⟩
 
 /-- Without an END nothing is ever handed up (why D12 matters). -/
 theorem receiver_needs_end (segs : List Seg) (h : ∀ s ∈ segs, s.fin = false) :
